@@ -143,7 +143,7 @@ def build_corpus(ctx):
             if key.startswith("cond"):
                 vecs += [[lo, lo], [hi, lo], [5, 5], [4, 5], [5, 4], [lo + 1, lo], [hi - 1, hi]]
         out.append({"key": key, "make": make, "fn": fn, "ptys": ptys, "vecs": vecs, "ext": [], "src": "harness/irgen_wasm.py " + key})
-    for k in range(100 if thorough else 14):
+    for k in range(150 if thorough else 14):
         seed = rng.randrange(1 << 30)
 
         def make(seed=seed):
@@ -159,7 +159,7 @@ def build_corpus(ctx):
         out.append({"key": "arith%d" % seed, "make": make, "fn": info["main"], "ptys": info["params"],
                     "vecs": c02.int_vectors(info["params"], prng, 6 if thorough else 4), "ext": ext,
                     "src": "irgen_wasm.gen_arith(random.Random(%d))" % seed})
-    for k in range(160 if thorough else 40):
+    for k in range(300 if thorough else 40):
         seed = rng.randrange(1 << 30)
 
         def make(seed=seed):
@@ -240,7 +240,7 @@ class Engine:
                 continue
             vecs = [v for v in p["vecs"] if len(v) == len(ptys)]
             for vi, vec in enumerate(vecs):
-                tag = feature_tag(pm) if p["key"].startswith(("arith", "c")) and not p["key"].startswith(("cast", "cfg")) else ""
+                tag = feature_tag(pm) if p["key"].startswith("arith") or (p["key"][0] == "c" and p["key"][1].isdigit()) else ""
                 wasm_cases.append({"id": "%s%s@%d" % (p["key"], tag, vi), "mods": [wp], "ext": p["ext"], "fuel": 10000,
                                    "calls": [{"fn": p["fn"], "args": [wasm_arg(v, t) for v, t in zip(vec, ptys)]}]})
                 meta.append({"p": p, "pm": pm, "vec": vec, "ptys": ptys, "ret": fdef[0]["ret"], "layout": layout, "wm": wm})
